@@ -176,6 +176,28 @@ type RunCase struct {
 	Grammar string  `json:"grammar"`
 	Ctx     tree.ID `json:"ctx"`
 	Mode    string  `json:"mode"` // current | mach
+	// context options (chained setters of the context)
+	Debug    bool `json:"debug,omitempty"`
+	Validate bool `json:"validate,omitempty"`
+	CfgOnly  bool `json:"cfgonly,omitempty"`
+}
+
+// run applies the case's context options and runs the machine.
+func (c RunCase) run(m *xpath.Machine, tr *tree.Tree) *xpath.Result {
+	ctx := xpath.NewCtxFromMach(m, nil)
+	if c.Mode != "mach" {
+		ctx = xpath.NewCtxFromCurrent(context.Background(), m, tr.At(c.Ctx))
+	}
+	if c.Debug {
+		ctx = ctx.EnableDebug()
+	}
+	if c.Validate {
+		ctx = ctx.EnableValidation()
+	}
+	if c.CfgOnly {
+		ctx = ctx.AccessibleTreeConfigOnly()
+	}
+	return ctx.Run()
 }
 
 var oddPrograms = []string{
@@ -220,25 +242,23 @@ func genRun(t *rapid.T) RunCase {
 	if rapid.IntRange(0, 3).Draw(t, "mode") == 0 {
 		c.Mode = "mach"
 	}
+	c.Debug = rapid.IntRange(0, 2).Draw(t, "debug") == 1
+	c.Validate = rapid.IntRange(0, 3).Draw(t, "validate") == 1
+	c.CfgOnly = rapid.IntRange(0, 4).Draw(t, "cfgonly") == 1
 	return c
 }
 
 // runOnce executes a machine; it returns the result and the tree (for its call count).
 func runOnce(m *xpath.Machine, c RunCase, faultAt int) (*xpath.Result, *tree.Tree) {
 	tr := &tree.Tree{FaultAt: faultAt}
-	var res *xpath.Result
-	if c.Mode == "mach" {
-		res = xpath.NewCtxFromMach(m, nil).Run()
-	} else {
-		res = xpath.NewCtxFromCurrent(context.Background(), m, tr.At(c.Ctx)).Run()
-	}
-	return res, tr
+	return c.run(m, tr), tr
 }
 
 func valueOrError(res *xpath.Result) string {
 	if res == nil {
 		return "Run() returned a nil Result"
 	}
+	_ = res.GetDebugOutput()
 	if res.GetError() != nil {
 		// every accessor must return the run error
 		_, e1 := res.GetBoolResult()
@@ -260,12 +280,15 @@ func valueOrError(res *xpath.Result) string {
 
 func checkRun(c RunCase) fw.Outcome {
 	out := fw.Outcome{Labels: []string{"mode:" + c.Mode, "grammar:" + c.Grammar}}
+	if c.Debug {
+		out.Labels = append(out.Labels, "debug")
+	}
 	m, err := build(c.Grammar, string(c.Src), false)
 	if err != nil {
 		out.Labels = append(out.Labels, "does-not-compile")
 		return out
 	}
-	out.Key = c.Grammar + "|" + string(c.Src) + "@" + c.Ctx.String() + c.Mode
+	out.Key = c.Grammar + "|" + string(c.Src) + "@" + c.Ctx.String() + c.Mode + fmt.Sprint(c.Debug, c.Validate, c.CfgOnly)
 	var res *xpath.Result
 	var tr *tree.Tree
 	done := fw.WithTimeout(20, func() { res, tr = runOnce(m, c, 0) })
@@ -298,10 +321,10 @@ func accessorsSafe(res *xpath.Result) (msg string) {
 var runProp = fw.Register(&fw.Prop[RunCase]{
 	ID: "C05", Name: "run",
 	Rule: "machines compiled from the C01/C02/C03 generators, from a list of odd-but-compilable programs (empty parentheses, non key=value predicates, unions, count/sum/text(), " +
-		"type-mismatched arguments, wildcards) and pairs of them, and leafref / path_eval machines; run on NewCtxFromCurrent over a free tree and on NewCtxFromMach(m, nil); " +
+		"type-mismatched arguments, wildcards) and pairs of them, and leafref / path_eval machines; run on NewCtxFromCurrent over a free tree and on NewCtxFromMach(m, nil), with the context options debug trace / argument validation / config-only tree on or off; " +
 		"oracle: Run returns within a watchdog without panicking, and yields an error or a value, never neither; non-trivial = the run calls into the data tree or the program has a predicate/union",
 	Gen: genRun, Check: checkRun, Weight: 0.5,
-	MinLabel: []string{"mode:current", "mode:mach", "run-error", "run-value", "grammar:leafref"},
+	MinLabel: []string{"mode:current", "mode:mach", "run-error", "run-value", "grammar:leafref", "debug"},
 })
 
 // ---------------------------------------------------------------- (c) faults
@@ -318,7 +341,7 @@ func checkFault(c RunCase) fw.Outcome {
 	}
 	_, tr0 := runOnce(m, c, 0)
 	n := tr0.Calls()
-	out.Key = c.Grammar + "|" + string(c.Src) + "@" + c.Ctx.String()
+	out.Key = c.Grammar + "|" + string(c.Src) + "@" + c.Ctx.String() + fmt.Sprint(c.Debug, c.Validate, c.CfgOnly)
 	out.Labels = append(out.Labels, fmt.Sprintf("callbacks:%d", min(n, 9)))
 	out.NonTrivial = n >= 2
 	faultRuns.Add(int64(n))
@@ -360,7 +383,7 @@ func checkFault(c RunCase) fw.Outcome {
 			var escaped any
 			func() {
 				defer func() { escaped = recover() }()
-				resp = xpath.NewCtxFromCurrent(context.Background(), m, trp.At(c.Ctx)).Run()
+				resp = c.run(m, trp)
 			}()
 			if escaped != nil {
 				out.Violation = fmt.Sprintf("%q at %s: callback %d of %d panicked with %T and the panic escaped from Run: %v", c.Src, c.Ctx, k, n, vals[k%len(vals)], escaped)
@@ -380,7 +403,7 @@ func checkFault(c RunCase) fw.Outcome {
 		// the same callback, if it is a value fetch, answering with a nil datum and no error: still a value or an error
 		if k <= len(tr0.Trace) && tr0.Trace[k-1].Op == "GetValue" {
 			trn := &tree.Tree{NilAt: k}
-			resn := xpath.NewCtxFromCurrent(context.Background(), m, trn.At(c.Ctx)).Run()
+			resn := c.run(m, trn)
 			if msg := accessorsSafe(resn); msg != "" {
 				out.Violation = fmt.Sprintf("%q at %s: value fetch %d of %d answered (nil, nil): %s", c.Src, c.Ctx, k, n, msg)
 				return out
